@@ -8,6 +8,17 @@ import (
 	"google.golang.org/grpc"
 )
 
+// vCtx: the caller's context of a request; for the layered outcome err@ctx it is already cancelled - grpc's invoker /
+// streamer then fails with the context's error before any transport is used (the interceptor only sees the returned error)
+func vCtx(oc string) context.Context {
+	if oc == "err@ctx" {
+		ctx, cancel := context.WithCancel(context.Background())
+		cancel()
+		return ctx
+	}
+	return context.Background()
+}
+
 func vIsBlock(err error) bool {
 	_, ok := err.(*base.BlockError)
 	return ok
@@ -30,7 +41,11 @@ func TestVerifDriver(t *testing.T) {
 	var cases []VCase
 	add := func(ep, side, variant string, opts []string, fb string, res func(bool) string, send func(method, oc string) error) {
 		mres := name(ep + "." + variant)
-		cases = append(cases, VCase{Ep: ep, Side: side, Variant: variant, Options: opts, Wraps: true, Errsig: true, Fb: fb, Res: res,
+		var layers []string
+		if side == "client" {
+			layers = []string{"err@ctx"}
+		}
+		cases = append(cases, VCase{Ep: ep, Side: side, Layers: layers, Variant: variant, Options: opts, Wraps: true, Errsig: true, Fb: fb, Res: res,
 			Send: func(blocked bool, oc string) bool { return vIsBlock(send(mres(blocked), oc)) }})
 	}
 	variants := func(ep, side, exName, fbName string, ex, fb Option, send func(opts []Option) func(method, oc string) error) {
@@ -51,9 +66,13 @@ func TestVerifDriver(t *testing.T) {
 		func(opts []Option) func(string, string) error {
 			ic := NewUnaryClientInterceptor(opts...)
 			return func(method, oc string) error {
-				return ic(context.Background(), method, "req", nil, nil,
-					func(context.Context, string, interface{}, interface{}, *grpc.ClientConn, ...grpc.CallOption) error {
-						return VHit(oc)
+				return ic(vCtx(oc), method, "req", nil, nil,
+					func(ctx context.Context, _ string, _, _ interface{}, _ *grpc.ClientConn, _ ...grpc.CallOption) error {
+						if err := VHit(oc); ctx.Err() != nil && err != nil {
+							return ctx.Err()
+						} else {
+							return err
+						}
 					})
 			}
 		})
@@ -67,9 +86,13 @@ func TestVerifDriver(t *testing.T) {
 		func(opts []Option) func(string, string) error {
 			ic := NewStreamClientInterceptor(opts...)
 			return func(method, oc string) error {
-				_, err := ic(context.Background(), &grpc.StreamDesc{}, nil, method,
-					func(context.Context, *grpc.StreamDesc, *grpc.ClientConn, string, ...grpc.CallOption) (grpc.ClientStream, error) {
-						return nil, VHit(oc)
+				_, err := ic(vCtx(oc), &grpc.StreamDesc{}, nil, method,
+					func(ctx context.Context, _ *grpc.StreamDesc, _ *grpc.ClientConn, _ string, _ ...grpc.CallOption) (grpc.ClientStream, error) {
+						if err := VHit(oc); ctx.Err() != nil && err != nil {
+							return nil, ctx.Err()
+						} else {
+							return nil, err
+						}
 					})
 				return err
 			}
